@@ -104,6 +104,15 @@ def gen_calls(rng, P):
         for k in range(P):
             calls.append(("deriv", k))
         calls.append(("eval",))
+    # a rejected update (wrong number of parameters) must leave parameters, evaluation and derivatives as they were
+    calls.append(("set", list(vals) + [55]))
+    calls.append(("params",))
+    calls.append(("eval",))
+    calls.append(("deriv", rng.randrange(P)))
+    if P > 1:
+        calls.append(("set", list(vals)[:-1]))
+        calls.append(("params",))
+        calls.append(("eval",))
     # and the same vector again
     calls.append(("set", list(vals)))
     calls.append(("deriv", rng.randrange(P)))
